@@ -263,8 +263,11 @@ def ast_get_call_keyword_names(node):
     return [kw_node.arg for kw_node in node.keywords if kw_node.arg]
 
 
-def remove_given_parameters(node, params, removed_params: Optional[set] = None):
+def remove_given_parameters(node, params, removed_params: Optional[set] = None, instance_given: bool = False):
     given_args = set(ast_get_call_positional_indexes(node))
+    if instance_given:
+        # Class.method(self, ...): the first positional is the instance, which params does not include
+        given_args = {n - 1 for n in given_args if n > 0}
     given_kwargs = set(ast_get_call_keyword_names(node))
     input_params = params
     params = [p for n, p in enumerate(params) if n not in given_args]
@@ -672,6 +675,14 @@ class ParametersVisitor(LoggerProperty, ast.NodeVisitor):
             return None
         return function_or_class, method_or_property
 
+    def is_unbound_method_call(self, node, function_or_class, method_or_property) -> bool:
+        """Whether the call has the form Class.method(instance, ...), i.e. the instance is given explicitly."""
+        if not (method_or_property and inspect.isclass(function_or_class)):
+            return False
+        if self.parent and ast.dump(node.func.value) == ast.dump(ast_variable_load(self.self_name)):
+            return False
+        return is_method(inspect.getattr_static(function_or_class, method_or_property, None))
+
     def match_call_that_uses_attr(self, node, source, attr_name):
         params = None
         if isinstance(node, ast.Call):
@@ -788,6 +799,7 @@ class ParametersVisitor(LoggerProperty, ast.NodeVisitor):
                     continue
                 kwarg = ast_get_call_kwarg_with_value(node, kwargs_value)
                 params = []
+                instance_given = False
                 if kwarg.arg:
                     self.log_debug(f"kwargs given as keyword parameter not supported: {ast_str(node)}")
                 elif self.parent and ast_is_super_call(node):
@@ -801,7 +813,8 @@ class ParametersVisitor(LoggerProperty, ast.NodeVisitor):
                     get_param_args = self.get_node_component(node, source)
                     if get_param_args:
                         params = get_signature_parameters(*get_param_args, logger=self.logger)
-                params = remove_given_parameters(node, params, removed_params)
+                        instance_given = self.is_unbound_method_call(node, *get_param_args)
+                params = remove_given_parameters(node, params, removed_params, instance_given=instance_given)
                 if params:
                     self.add_node_origins(params, node)
                     params_list.append(params)
